@@ -1,6 +1,6 @@
 """C10 - DecisionTreeLogisticRegression is a consistent tree of binary classifiers."""
 from vf import loader
-from vf.core import Clause, Outcome, Violation, require, np_scalars, with_np, with_sk, round_trip, COPIES
+from vf.core import Clause, Outcome, Violation, require, np_scalars, with_np, with_sk, round_trip, COPIES, build_via
 from vf.estimators import CentroidClassifier, SkewedClassifier
 
 import math
@@ -77,9 +77,10 @@ def check(case):
     Q = np.vstack([np.array(case["Q"], dtype=np.float64).reshape(-1, d), X[::3]])
     o = case["opts"]
     facts = dict(base=case["base"], algo=o["fit_improve_algo"], max_depth=o["max_depth"], label_kind=case["label_kind"])
-    m = _mod.DecisionTreeLogisticRegression(estimator=_base(case["base"]), **np_scalars(dict(
+    m = build_via(_mod.DecisionTreeLogisticRegression, dict(estimator=_base(case["base"]), **np_scalars(dict(
         max_depth=o["max_depth"], min_samples_split=o["min_samples_split"], min_samples_leaf=o["min_samples_leaf"],
-        fit_improve_algo=o["fit_improve_algo"], p1p2=o["p1p2"], gamma=o["gamma"]), case.get("np_params", False)))
+        fit_improve_algo=o["fit_improve_algo"], p1p2=o["p1p2"], gamma=o["gamma"]), case.get("np_params", False))),
+                  case.get("via_set_params"), dict(estimator=_base(case["base"])))       # built with the class defaults (max_depth=20, 'auto'), then set_params
     X0 = X.copy()
     try:
         r = m.fit(X, y)
@@ -187,7 +188,8 @@ def check(case):
     nreal = n_nodes_real if n_nodes_real is not None else len(set(np.nonzero(DPd)[1].tolist()))
     labels = [case["base"], "algo=" + str(o["fit_improve_algo"]), "nodes=1" if nreal == 1 else ("nodes=2" if nreal == 2 else ("nodes<=6" if nreal <= 6 else "nodes>6")),
               "structural-" + structural, "labels=" + case["label_kind"], "ambiguous-rows" if ambiguous else "no-ambiguous-row",
-              "via-copy:" + str(case.get("via_copy") or "none"), "border-probes" if probes else "no-border-probe"]
+              "via-copy:" + str(case.get("via_copy") or "none"), "border-probes" if probes else "no-border-probe",
+              "configured-by-set_params" if case.get("via_set_params") else "configured-by-constructor"]
     return Outcome(labels, nreal >= 3)
 
 
@@ -227,6 +229,6 @@ def _cases(draw, tier="quick"):
 
 
 CLAUSES = [
-    Clause("tree", check, strategy=lambda tier: st.builds(lambda c, h: dict(c, via_copy=h), with_sk(with_np(_cases(tier))), st.sampled_from(COPIES)), quick=4000, thorough=60000, quick_shards=16,
+    Clause("tree", check, strategy=lambda tier: st.builds(lambda c, h, v: dict(c, via_copy=h, via_set_params=v), with_sk(with_np(_cases(tier))), st.sampled_from(COPIES), st.sampled_from([False, False, True])), quick=4000, thorough=60000, quick_shards=16,
            doc="observable clauses + reference traversal of tree_"),
 ]
